@@ -132,7 +132,7 @@ func (c *defaultClient) PinPath(ctx context.Context, path string, opts api.PinOp
 		"POST",
 		fmt.Sprintf(
 			"/pins%s?%s",
-			ipfspath.String(),
+			escapePath(ipfspath.String()),
 			query,
 		),
 		nil,
@@ -141,6 +141,16 @@ func (c *defaultClient) PinPath(ctx context.Context, path string, opts api.PinOp
 	)
 
 	return &pin, err
+}
+
+// escapePath escapes every segment of a path so that it can be placed in a
+// request URL ("?", "#" and "%" may appear in file names).
+func escapePath(p string) string {
+	segments := strings.Split(p, "/")
+	for i, s := range segments {
+		segments[i] = url.PathEscape(s)
+	}
+	return strings.Join(segments, "/")
 }
 
 // UnpinPath allows to unpin an item by providing its IPFS path.
@@ -155,7 +165,7 @@ func (c *defaultClient) UnpinPath(ctx context.Context, p string) (*api.Pin, erro
 		return nil, err
 	}
 
-	err = c.do(ctx, "DELETE", fmt.Sprintf("/pins%s", ipfspath.String()), nil, nil, &pin)
+	err = c.do(ctx, "DELETE", fmt.Sprintf("/pins%s", escapePath(ipfspath.String())), nil, nil, &pin)
 	return &pin, err
 }
 
